@@ -505,7 +505,26 @@ func (c *Ctx) c09PipelineCase(mode int, groups int) {
 // builds one canvas (one AddField per group, a group = CombineFields of its primitives), marches it and emits the
 // oracle lines: strictOp (closed: every directed edge exactly once, reverse exactly once, no degenerate face),
 // balanced, outward, near_iso
+// the three ways of filling a canvas: AddField, AddFieldParallel, AddFieldParallel2
+func c09Add(canvas *marching.MarchingCanvas, how int, f marching.Field) {
+	switch how {
+	case 1:
+		canvas.AddFieldParallel(f)
+	case 2:
+		canvas.AddFieldParallel2(f)
+	default:
+		canvas.AddField(f)
+	}
+}
+
 func (c *Ctx) c09RunShapes(tag string, groups [][]c09Shape, cpu, cutoff float64, strictOp string) {
+	// pipeline canvases: a third each through AddField, AddFieldParallel, AddFieldParallel2 (the property speaks of
+	// marching the canvas, however it was filled); catalogue / aligned canvases through AddField
+	how := 0
+	if tag == "pipe" {
+		how = c.Rng.Intn(3)
+	}
+	c.Note(fmt.Sprintf("%s.filled-by=%s", tag, []string{"AddField", "AddFieldParallel", "AddFieldParallel2"}[how]))
 	toks := []string{}
 	var mesh modeling.Mesh
 	blocks := 0
@@ -517,7 +536,7 @@ func (c *Ctx) c09RunShapes(tag string, groups [][]c09Shape, cpu, cutoff float64,
 				fields[i] = s.field()
 				toks = append(toks, s.tokens())
 			}
-			canvas.AddField(marching.CombineFields(fields...))
+			c09Add(canvas, how, marching.CombineFields(fields...))
 		}
 		mesh = canvas.March(cutoff)
 		return "ok"
@@ -534,6 +553,88 @@ func (c *Ctx) c09RunShapes(tag string, groups [][]c09Shape, cpu, cutoff float64,
 	c.Emit("c09.holds.near_iso", Fs(cpu, cutoff)+" "+strconv.Itoa(len(toks))+" "+strings.Join(toks, " ")+" "+c09MeshTokens(mesh, false, true), "true")
 	// per-triangle orientation: normal vs the inside→outside directions of the lattice edges its corners lie on
 	c.Emit("c09.holds.tri_outward", Fs(cpu, cutoff)+" "+strconv.Itoa(len(toks))+" "+strings.Join(toks, " ")+" "+c09MeshTokens(mesh, true, true), "true")
+}
+
+// ---------------------------------------------------------------- accumulated (overlapping) fields
+//
+// Several single-primitive fields whose padded sample boxes OVERLAP, added one after the other through AddField,
+// AddFieldParallel or AddFieldParallel2: every call must ADD its samples onto what the canvas holds.  The canvas then
+// holds the SUM of the fields (each only inside its own sample box), and the near-isosurface / per-triangle oracles are
+// evaluated by the driver against exactly that accumulated field.  An adder that overwrites instead of accumulating
+// yields the closed surface of the WRONG field: near_iso_accumulated sees it.
+
+// padded lattice bounds [lo, hi) of the samples an AddField* call writes (MarchingCanvas.fieldBounds)
+func c09FieldBounds(f marching.Field, cpu float64) (lo, hi [3]int) {
+	mn, mx := f.Domain.Min(), f.Domain.Max()
+	lo = [3]int{int(math.Floor(mn.X()*cpu)) - 1, int(math.Floor(mn.Y()*cpu)) - 1, int(math.Floor(mn.Z()*cpu)) - 1}
+	hi = [3]int{int(math.Ceil(mx.X()*cpu)) + 1, int(math.Ceil(mx.Y()*cpu)) + 1, int(math.Ceil(mx.Z()*cpu)) + 1}
+	return
+}
+
+func (c *Ctx) c09AccumulatedCase(name string, cpu, cutoff float64, shapes []c09Shape, hows []int) {
+	c.Note("acc.case")
+	toks := []string{}
+	var mesh modeling.Mesh
+	status := Guard(func() string {
+		canvas := marching.NewMarchingCanvas(cpu)
+		for i, s := range shapes {
+			f := s.field()
+			lo, hi := c09FieldBounds(f, cpu)
+			toks = append(toks, fmt.Sprintf("%d %d %d %d %d %d 1 %s", lo[0], lo[1], lo[2], hi[0], hi[1], hi[2], s.tokens()))
+			how := hows[i%len(hows)]
+			c.Note(fmt.Sprintf("acc.filled-by=%s", []string{"AddField", "AddFieldParallel", "AddFieldParallel2"}[how]))
+			c09Add(canvas, how, f)
+		}
+		mesh = canvas.March(cutoff)
+		return "ok"
+	})
+	if status != "ok" {
+		c.Emit("c09.holds.closed", "0 0", status)
+		return
+	}
+	c.Note(fmt.Sprintf("acc.tris~%d", c09Bucket(mesh.PrimitiveCount())))
+	head := Fs(cpu, cutoff) + " " + strconv.Itoa(len(toks)) + " " + strings.Join(toks, " ")
+	c.Emit("c09.holds.closed", c09MeshTokens(mesh, true, false), "true")
+	c.Emit("c09.holds.balanced", c09MeshTokens(mesh, true, false), "true")
+	c.Emit("c09.holds.outward", c09MeshTokens(mesh, true, true), "true")
+	c.Emit("c09.holds.near_iso_accumulated", head+" "+c09MeshTokens(mesh, false, true), "true")
+	c.Emit("c09.holds.tri_outward_accumulated", head+" "+c09MeshTokens(mesh, true, true), "true")
+}
+
+func (c *Ctx) c09AccumulatedCases(random int) {
+	sph := func(cpu, x, y, z, r float64) c09Shape {
+		return c09Shape{kind: 0, a: vector3.New(x/cpu, y/cpu, z/cpu), r: r / cpu, strength: 1}
+	}
+	box := func(cpu, x, y, z, sx, sy, sz float64) c09Shape {
+		return c09Shape{kind: 1, a: vector3.New(x/cpu, y/cpu, z/cpu), b: vector3.New(sx/cpu, sy/cpu, sz/cpu), strength: 1}
+	}
+	// fixed: two overlapping spheres / sphere + box, one block and across seams, each adder for the second (and first) call
+	for how := 0; how < 3; how++ {
+		c.c09AccumulatedCase("two overlapping spheres, one block", 7.5, 0,
+			[]c09Shape{sph(7.5, 40.3, 41.1, 39.6, 6.2), sph(7.5, 45.9, 43.2, 41.7, 5.4)}, []int{how})
+		c.c09AccumulatedCase("sphere + box across a seam (negative)", 10, 0,
+			[]c09Shape{sph(10, -2.4, 3.3, 1.7, 6.6), box(10, 3.1, 1.2, -1.4, 8.2, 7.4, 9.6)}, []int{0, how})
+	}
+	c.c09AccumulatedCase("three overlapping spheres, mixed adders, negative cutoff", 5, -0.15,
+		[]c09Shape{sph(5, 98.7, 20.2, 30.9, 5.5), sph(5, 103.1, 22.4, 29.3, 5.1), sph(5, 100.6, 17.3, 32.8, 4.6)}, []int{2, 1, 0})
+	for k := 0; k < random; k++ {
+		cpu := []float64{5, 7.5, 10, 13}[c.Rng.Intn(4)]
+		base := [3]float64{float64(100*(c.Rng.Intn(3)-1)) + c.Rng.Float64()*8 - 4, 40 + c.Rng.Float64()*10, float64(100*(c.Rng.Intn(3)-1)) + 30 + c.Rng.Float64()*8}
+		n := 2 + c.Rng.Intn(2)
+		shapes := []c09Shape{}
+		hows := []int{}
+		for i := 0; i < n; i++ {
+			x, y, z := base[0]+c.Rng.Float64()*6-3, base[1]+c.Rng.Float64()*6-3, base[2]+c.Rng.Float64()*6-3
+			if c.Rng.Intn(2) == 0 {
+				shapes = append(shapes, sph(cpu, x, y, z, 4+c.Rng.Float64()*3))
+			} else {
+				shapes = append(shapes, box(cpu, x, y, z, 6+c.Rng.Float64()*4, 6+c.Rng.Float64()*4, 6+c.Rng.Float64()*4))
+			}
+			hows = append(hows, c.Rng.Intn(3))
+		}
+		c.Note("acc.random")
+		c.c09AccumulatedCase("random", cpu, 0, shapes, hows)
+	}
 }
 
 // ---------------------------------------------------------------- lattice-aligned / exact-cutoff inputs
@@ -817,6 +918,7 @@ func (c *Ctx) c09EmptyCases() {
 
 func runC09(c *Ctx) {
 	c.c09EmptyCases()
+	c.c09AccumulatedCases(c.N / 2)
 	// lattice-aligned / exact-cutoff classes: the fixed catalogue in both tiers, then N random members
 	for _, a := range c09AlignedCatalogue() {
 		c.c09RunAligned(a)
